@@ -183,6 +183,23 @@ def rule_r4(ctx) -> List[R.Inst]:
     return out
 
 
+def rule_r5(ctx) -> List[R.Inst]:
+    """hitsound_copy under row permutation: the target notes that may take the sounds of a time are ALL rows at that time — a
+    selection that keeps one row per time by its position (the last one stored wins) makes the receiving note depend on the
+    row order of the target (rule code of C18.R6, the slot lookup)"""
+    from . import c18
+    fn = c18._fn(ctx)
+    file = ctx.M.mods[fn.mod].rel
+    out = []
+    for i in c18._slot_lookup(fn):
+        i.rule = "C15.R5"
+        i.file = i.file or file
+        out.append(i)
+    if not out:
+        out.append(R.undec("C15.R5", "slot-lookup", file, fn.node.lineno, "how hitsound_copy selects the target rows of a time was not recognised"))
+    return out
+
+
 def rule_dep(ctx):
     """obligations inherited from shared code reached through the call graph (sa/props/deps.py)"""
     from .deps import dep_insts
@@ -193,6 +210,7 @@ SPECS = [
     RuleSpec("C15.R1", rule_r1, 8, "A5", "positional pairing only between equally ordered sequences"),
     RuleSpec("C15.R2", rule_r2, 15, "A5", "order-dependent reductions only on sorted (or order-free) data"),
     RuleSpec("C15.R4", rule_r4, 3, "A5", "id schemes enumerated on two sides run over one list in one order (BMS tempo ids)"),
+    RuleSpec("C15.R5", rule_r5, 1, "A5", "hitsound_copy: every target row at a time is a slot (no one-row-per-time selection by position)"),
     RuleSpec("C15.R3", rule_r3, 1, "A4", "converters copy columns by position, never by row label"),
     RuleSpec("C15.D", rule_dep, 1, "M0", "rules of the shared code (timing engine, list classes, stacker) that the operations of this property reach"),
 ]
